@@ -211,12 +211,12 @@ Section ReadBack.
       rewrite <- Hfr. apply in_or_app. now right. }
     split.
     - apply Forall_forall. intros t Ht. apply in_map_iff in Ht as (g & <- & Hg).
-      pose proof (proj1 (Forall_forall _ _) HG g Hg) as Hlg.
-      rewrite (woc_node Node g) by lia. apply full_node; [exact Hlg | now apply HinG].
+      pose proof (proj1 (Forall_forall _ _) HG g Hg) as Hlg. cbn beta in Hlg.
+      rewrite (woc_node Node b Hb g) by lia. apply full_node; [exact Hlg | now apply HinG].
     - rewrite app_length in Hgl. cbn [length] in Hgl.
       destruct gf as [|y gf'].
       + cbn [app wrap_or_carry]. split; [now apply wf_mono|]. rewrite B_succ. pose proof (B_pos j). nia.
-      + rewrite (woc_node Node ((y :: gf') ++ [last])) by (rewrite app_length; cbn [length]; lia).
+      + rewrite (woc_node Node b Hb ((y :: gf') ++ [last])) by (rewrite app_length; cbn [length]; lia).
         assert (Hfull : Forall (fun t => len (tree_data t) = B j) (y :: gf')) by (eapply Forall_impl; [|exact Hgf]; now intros ? []).
         assert (Hwf : Forall (wf j) (y :: gf')) by (eapply Forall_impl; [|exact Hgf]; now intros ? []).
         split.
@@ -279,7 +279,7 @@ Section ReadBack.
     rewrite Hgr, map_app. cbn [map]. exists (map Leaf G), (Leaf glast). split; [reflexivity|].
     rewrite B_0. split.
     - apply Forall_forall. intros t Ht. apply in_map_iff in Ht as (g & <- & Hg).
-      pose proof (proj1 (Forall_forall _ _) HG g Hg) as Hlg. cbn [wf tree_data].
+      pose proof (proj1 (Forall_forall _ _) HG g Hg) as Hlg. cbn beta in Hlg. cbn [wf tree_data].
       split; [exists g; split; [reflexivity | lia] | lia].
     - cbn [wf tree_data]. split; [exists glast; split; [reflexivity | lia] | lia].
   Qed.
